@@ -216,6 +216,33 @@ fn main() {
                 None => println!("result=open-failed"),
             }
         }
+        // table_filter_sweep : tables of 300 keys with 512-byte blocks and value lengths 1..=48; every stored key must be found
+        "table_filter_sweep" => {
+            let mut missing = 0usize;
+            let mut first = String::new();
+            for vlen in 1..=48usize {
+                let fs = std::sync::Arc::new(raindb::fs::InMemoryFileSystem::new());
+                let o = v::options_with(fs, 512);
+                let keys: Vec<Vec<u8>> = (0..300u32).map(|i| format!("key{:06}", i).into_bytes()).collect();
+                let val = vec![b'v'; vlen];
+                let ents: Vec<(&[u8], u64, bool, &[u8])> = keys.iter().map(|k| (k.as_slice(), 7u64, true, val.as_slice())).collect();
+                if !v::table_build(&o, &ents) {
+                    println!("result=build-failed");
+                    return;
+                }
+                for k in &keys {
+                    let (code, _) = v::table_get(&o, k, 100);
+                    if code != 0 {
+                        missing += 1;
+                        if first.is_empty() {
+                            first = format!("{} (value length {})", String::from_utf8_lossy(k), vlen);
+                        }
+                    }
+                }
+            }
+            println!("missing={}", missing);
+            println!("first_missing={}", first);
+        }
         // table_get targetU:seq shape(c,c,..) uk:seq:op:vv ...   (entries in sorted order; blocks per shape)
         "table_get" => {
             let t = key(a[1]);
@@ -563,6 +590,16 @@ fn main() {
                         let r = d.put(WriteOptions::default(), hex(kv[0]), hex(kv[1]));
                         println!("step{}={}", n, if r.is_ok() { "ok" } else { "err" });
                     }
+                    "B" => {
+                        // B<k>=<v>+<k>=<v>... : one batch of puts
+                        let mut b = raindb::Batch::new();
+                        for kv in arg.split('+') {
+                            let p: Vec<&str> = kv.split('=').collect();
+                            b.add_put(hex(p[0]), hex(p[1]));
+                        }
+                        let r = d.apply(WriteOptions::default(), b);
+                        println!("step{}={}", n, if r.is_ok() { "ok" } else { "err" });
+                    }
                     "D" => {
                         let r = d.delete(WriteOptions::default(), hex(arg));
                         println!("step{}={}", n, if r.is_ok() { "ok" } else { "err" });
@@ -800,6 +837,81 @@ fn main() {
             println!("race_get={}", match &r { Ok(x) => String::from_utf8_lossy(x).to_string(), Err(_) => "notfound".to_string() });
             let r2 = db.get(ReadOptions::default(), b"target");
             println!("later_get={}", match &r2 { Ok(x) => String::from_utf8_lossy(x).to_string(), Err(_) => "notfound".to_string() });
+        }
+        // compact_waiters : three threads run compact_range concurrently for a few rounds; do they all return?
+        "compact_waiters" => {
+            use raindb::WriteOptions;
+            let mut o = raindb::DbOptions::with_memory_env();
+            o.db_path = "db".to_string();
+            o.create_if_missing = true;
+            let db = std::sync::Arc::new(raindb::DB::open(o).expect("open"));
+            for i in 0..20u32 {
+                db.put(WriteOptions::default(), format!("k{:03}", i).into_bytes(), vec![b'x'; 50]).unwrap();
+            }
+            let done = std::sync::Arc::new(std::sync::atomic::AtomicUsize::new(0));
+            let barrier = std::sync::Arc::new(std::sync::Barrier::new(3));
+            for t in 0..3 {
+                let (db, done, barrier) = (std::sync::Arc::clone(&db), std::sync::Arc::clone(&done), std::sync::Arc::clone(&barrier));
+                std::thread::spawn(move || {
+                    for r in 0..15u32 {
+                        barrier.wait();
+                        let _ = db.put(WriteOptions::default(), format!("t{}r{}", t, r).into_bytes(), vec![b'y'; 20]);
+                        db.compact_range(None..None);
+                    }
+                    done.fetch_add(1, std::sync::atomic::Ordering::SeqCst);
+                });
+            }
+            let start = std::time::Instant::now();
+            while done.load(std::sync::atomic::Ordering::SeqCst) < 3 && start.elapsed().as_secs() < 15 {
+                std::thread::sleep(std::time::Duration::from_millis(50));
+            }
+            println!("all_returned={}", done.load(std::sync::atomic::Ordering::SeqCst) == 3);
+            std::process::exit(0);
+        }
+        // recovery_scenario two_wals_stale_sequence|two_wals_reuse : two write-ahead logs at or above the manifest's WAL number
+        "recovery_scenario" => {
+            use raindb::{ReadOptions, WriteOptions};
+            let mut o = raindb::DbOptions::with_memory_env();
+            o.db_path = "db".to_string();
+            o.create_if_missing = true;
+            o.reuse_log_files = true;
+            {
+                let db = raindb::DB::open(o.clone()).expect("open");
+                for k in ["k1", "k2", "k3"] {
+                    db.put(WriteOptions::default(), k.as_bytes().to_vec(), b"v".to_vec()).unwrap();
+                }
+            }
+            let wals = v::wal_numbers(&o);
+            let newest = *wals.last().expect("a wal");
+            let fabricated = newest + 5;
+            let mut expected = vec!["k1", "k2", "k3"];
+            {
+                let mut w = v::VLogWriter::new(o.filesystem_provider(), &v::wal_path(&o, fabricated), false).unwrap();
+                if a[1] == "two_wals_reuse" {
+                    w.append(&v::encode_put_batch(4, &[(b"k4".to_vec(), b"v".to_vec())])).unwrap();
+                    expected.push("k4");
+                }
+            }
+            println!("wals={:?}+{}", wals, fabricated);
+            let read = |db: &raindb::DB| -> String {
+                let mut got = vec![];
+                for k in ["k1", "k2", "k3", "k4"] {
+                    if db.get(ReadOptions::default(), k.as_bytes()).is_ok() {
+                        got.push(k);
+                    }
+                }
+                got.join(",")
+            };
+            {
+                let db = raindb::DB::open(o.clone()).expect("reopen 1");
+                println!("open1={}", read(&db));
+                db.put(WriteOptions::default(), b"k5".to_vec(), b"v".to_vec()).unwrap();
+            }
+            {
+                let db = raindb::DB::open(o.clone()).expect("reopen 2");
+                println!("open2={}", read(&db));
+            }
+            println!("expected={}", expected.join(","));
         }
         // descriptor_watchdog Stats|SSTables|NumFilesAtLevel : does get_descriptor return? (the driver applies the watchdog)
         "descriptor_watchdog" => {
